@@ -9,6 +9,7 @@ from fractions import Fraction
 import z3
 from . import core
 from .core import SymNum, SymBool, Unsupported, Poly
+from . import fp64
 
 _real_float = builtins.float
 _real_round = builtins.round
@@ -22,7 +23,7 @@ COUNTS = {'float_on_sym': 0}
 
 
 def _symbolic(*xs):
-    return core.ENG is not None and any(isinstance(x, (SymNum, SymAngle, SymAcos)) for x in xs)
+    return core.ENG is not None and any(isinstance(x, (SymNum, SymAngle, SymAcos, fp64.FPNum)) for x in xs)
 
 
 # ----------------------------------------------------------------------------- angles
@@ -150,14 +151,26 @@ class SymAcos:
 
 # ----------------------------------------------------------------------------- math.*
 def _sqrt(x):
+    if core.ENG is not None and isinstance(x, fp64.FPNum):
+        if bool(x < 0.0):
+            raise ValueError('math domain error')
+        return fp64.FPNum(z3.fpSqrt(fp64.RNE, x.z))
     if _symbolic(x):
         return core.sym_sqrt(x)
     return _M['sqrt'](x)
 
 
+ACOS_SLACK = Fraction(1, 10 ** 9)   # exact reals mixed with concrete float sub-results: noise-level excess over 1 is
+#                                     not a domain error of the model (the bit-precise FP64 domain decides that question)
+
+
 def _acos(x):
+    if core.ENG is not None and isinstance(x, fp64.FPNum):
+        if bool(x < -1.0) or bool(x > 1.0):
+            raise ValueError('math domain error')
+        return fp64.FPAngle(x)
     if _symbolic(x):
-        if bool(x < -1) or bool(x > 1):
+        if bool(x < -1 - ACOS_SLACK) or bool(x > 1 + ACOS_SLACK):
             raise ValueError('math domain error')
         return SymAcos('acos', x)
     return _M['acos'](x)
@@ -165,7 +178,7 @@ def _acos(x):
 
 def _asin(x):
     if _symbolic(x):
-        if bool(x < -1) or bool(x > 1):
+        if bool(x < -1 - ACOS_SLACK) or bool(x > 1 + ACOS_SLACK):
             raise ValueError('math domain error')
         return SymAcos('asin', x)
     return _M['asin'](x)
@@ -225,6 +238,8 @@ class FloatShim(metaclass=_FloatMeta):
     def __new__(cls, x=0.0):
         if core.ENG is not None and isinstance(x, (SymNum, SymAcos)):
             COUNTS['float_on_sym'] += 1
+            return x
+        if core.ENG is not None and isinstance(x, fp64.FPNum):
             return x
         return _real_float(x)
 
